@@ -27,8 +27,16 @@ fn main() {
                 }
             }
         }
+        Some("fibex") => {
+            // load one FIBEX file; prints "model" or "none" (a hang is detected by the caller's wall-clock limit)
+            let cfg = dlt_core::fibex::FibexConfig { fibex_file_paths: vec![args[2].clone()] };
+            match dlt_core::fibex::gather_fibex_data(cfg) {
+                Some(_) => println!("model"),
+                None => println!("none"),
+            }
+        }
         _ => {
-            eprintln!("usage: dlt-native ts from_ms|from_us <u64>...");
+            eprintln!("usage: dlt-native ts from_ms|from_us <u64>... | fibex <path>");
             std::process::exit(2);
         }
     }
